@@ -213,6 +213,26 @@ func getLayout(tier string) []block {
 		}
 		return mkFn(&targets[kc.t], args...)
 	}}
+	// both bounds at once: every function that documents :start and :end, behind each
+	// required-argument tuple, with the pairs a caller gets wrong (start beyond end, end beyond
+	// the length, equal bounds, both beyond)
+	var kwSE []kwCase
+	for _, kc := range kw {
+		if kc.key == "start" {
+			for _, k2 := range targets[kc.t].keys {
+				if k2 == "end" {
+					kwSE = append(kwSE, kc)
+				}
+			}
+		}
+	}
+	bounds := [][2]string{{"three", "one"}, {"zero", "five"}, {"five", "zero"}, {"one", "one"}, {"five", "big62"}, {"neg1", "one"}, {"one", "nil"}}
+	fnBounds := block{name: "fn-start-end-pairs", n: len(kwSE) * len(bounds), gen: func(_ *rand.Rand, k int) Case {
+		kc := kwSE[k/len(bounds)]
+		b := bounds[k%len(bounds)]
+		args := append(append([]string{}, kc.req...), ":start", b[0], ":end", b[1])
+		return mkFn(&targets[kc.t], args...)
+	}}
 	srcDet := block{name: "src-det", n: len(srcTexts()), gen: func(_ *rand.Rand, k int) Case { return Case{K: "src", Text: srcTexts()[k]} }}
 	fnkw := block{name: "fn-keywords", n: len(kw) * P, gen: func(_ *rand.Rand, k int) Case {
 		kc := kw[k/P]
@@ -235,14 +255,14 @@ func getLayout(tier string) []block {
 	var l []block
 	switch tier {
 	case "thorough":
-		l = []block{fn0, fn1, fn1twice, fn1in, fn0amb, fn1amb, sampled(fn2amb, 200000), send01, send2, send3, send1amb, chain, fn2, fn2num, fn3, fnkw, kwBad, fnN(200000),
+		l = []block{fn0, fn1, fn1twice, fn1in, fn0amb, fn1amb, sampled(fn2amb, 200000), send01, send2, send3, send1amb, chain, fn2, fn2num, fn3, fnkw, fnBounds, kwBad, fnN(200000),
 			srcDet, fmtDet, fmtDest, fmtSeed(200000), rdDet, rdAmb, rdSeed(200000)}
 	case "seeded": // development aid: the seeded blocks of the thorough tier only
 		l = []block{fnN(200000), fmtSeed(200000), rdSeed(200000)}
 	default:
 		l = []block{fn0, fn1, sampled(fn1twice, 15000), sampled(fn1in, 20000), fn0amb, fn1ambDet, sampled(fn1amb, 15000), sampled(fn2amb, 10000),
 			send01, send2q, send1amb, sampled(send2, 5000), sampled(send3, 5000), chainStride, sampled(chain, 5000),
-			fn2q, fn2num, sampled(fn2, 30000), sampled(fn3, 15000), sampled(fnkw, 10000), sampled(kwBad, 10000), fnN(15000),
+			fn2q, fn2num, sampled(fn2, 30000), sampled(fn3, 15000), sampled(fnkw, 10000), fnBounds, sampled(kwBad, 10000), fnN(15000),
 			srcDet, fmtDet, fmtDest, fmtSeed(5000), rdDet, rdAmb, rdSeed(10000)}
 	}
 	layouts[tier] = l
@@ -319,8 +339,8 @@ var kwCache []kwCase
 // reqTuples: plausible required arguments in front of a keyword pair.
 var reqTuples = [][][]string{
 	{{}},
-	{{"list3"}, {"str"}, {"vector"}, {"nil"}, {"sym"}},
-	{{"sym", "list3"}, {"zero", "list3"}, {"list3", "list3"}, {"str", "str"}, {"char", "str"}, {"lambda", "list3"}, {"three", "vector"}},
+	{{"list3"}, {"str"}, {"vector"}, {"nil"}, {"sym"}, {"nonascii-str"}, {"digits-str"}},
+	{{"sym", "list3"}, {"zero", "list3"}, {"list3", "list3"}, {"str", "str"}, {"char", "str"}, {"lambda", "list3"}, {"three", "vector"}, {"char", "nonascii-str"}, {"one", "list3"}},
 	{{"sym", "sym", "list3"}, {"zero", "one", "list3"}, {"str", "str", "str"}, {"lambda", "list3", "list3"}},
 }
 
